@@ -8,6 +8,8 @@
 //   dec <id> <u|f> <s|p> <nochk 0|1> <hex>        decode, print tree, re-encode
 //   enc <id> <u|f> <msgtype> <item>...            build + encode (+ "D" item: decode the result strictly, re-encode)
 //        items: H B T (section)  F<tag>=<hex> (field)  G<tag> (open group)  E (new element)  e  g   D
+//               R<tag>=<hex>: after D, decode the bytes once more, replace that (top-level) field of the decoded
+//               message by a new value, encode and decode again -> {"e":"Decode2",...}
 // Every dec/enc prints {"e":"Begin","id":..} first and {"e":"End","id":..} last, so that the driver
 // knows which input was in flight when the process died (sanitizer report: exit 97; watchdog: the
 // SIGPROF/SIGALRM handler prints {"e":"Timeout"} and exits 98) and restarts the probe behind it.
@@ -166,6 +168,7 @@ static void do_enc(const std::vector<std::string>& t)
 	Message *m = nullptr;
 	f8String out;
 	bool want_dec = false;
+	std::vector<std::pair<unsigned short, std::string>> repl;
 	const bool built = guarded(ev, "b_", [&]() {
 		m = ctx.create_msg(t[3].c_str(), true);
 		if (!m)
@@ -222,6 +225,11 @@ static void do_enc(const std::vector<std::string>& t)
 			}
 			else if (it == "D")
 				want_dec = true;
+			else if (it[0] == 'R')
+			{
+				const size_t eq = it.find('=');
+				repl.push_back({static_cast<unsigned short>(strtoul(it.c_str() + 1, 0, 10)), pj::unhex(it.substr(eq + 1))});
+			}
 		}
 	});
 	bool encoded = false;
@@ -239,6 +247,40 @@ static void do_enc(const std::vector<std::string>& t)
 		dv.s("id", t[1]).s("mode", "s").i("nochk", 0).i("len", out.size());
 		do_decode(dv, ctx, out, false, false);
 		dv.emit();
+	}
+	if (encoded && want_dec && !repl.empty())
+	{
+		// the message as an application gets it from the factory, one field value replaced, sent on
+		pj::Ev rv("Replace");
+		rv.s("id", t[1]);
+		f8String out2;
+		const bool ok = guarded(rv, "", [&]() {
+			std::unique_ptr<Message> d(Message::factory(ctx, out));
+			if (!d)
+				throw std::runtime_error("factory returned nothing");
+			for (const auto& r : repl)
+			{
+				MessageBase *part = d->Header()->have(r.first) ? d->Header() : d->Trailer()->have(r.first) ? d->Trailer() : static_cast<MessageBase *>(d.get());
+				BaseField *bf = ctx.create_field(r.first, r.second.c_str());
+				if (!bf)
+					throw std::runtime_error("create_field: unknown field " + std::to_string(r.first));
+				BaseField *old = part->replace(r.first, bf);
+				if (!old)
+					throw std::runtime_error("replace: field not present " + std::to_string(r.first));
+				delete old;
+			}
+			d->encode(out2);
+		});
+		if (ok)
+			rv.s("hex", pj::hex(out2));
+		rv.emit();
+		if (ok)
+		{
+			pj::Ev dv("Decode2");
+			dv.s("id", t[1]).s("mode", "s").i("nochk", 0).i("len", out2.size());
+			do_decode(dv, ctx, out2, false, false);
+			dv.emit();
+		}
 	}
 }
 
